@@ -77,7 +77,14 @@ def generate(targets, prop):
         try:
             if relpath == "<gen>":
                 obs = q()
-                fr.paths = 1
+                it = getattr(q, "interp", None)
+                fr.paths = getattr(it, "n_paths", 1) if it is not None else 1
+                if it is not None:
+                    fr.inlined = sorted(it.stats["inlined"])
+                    fr.assumed_used = sorted(getattr(q, "assumed", []))
+                fns = getattr(q, "functions", None)
+                if fns:
+                    fr.hash = ",".join(f"{qq}:{src.source_hash(rp, qq)}" for rp, qq in fns)
             else:
                 if relpath == "<lemma>":
                     con = [l for l in reg.lemmas if l.qualname == q][0]
@@ -100,6 +107,67 @@ def generate(targets, prop):
         fr.gen_s = time.time() - t0
         out.append(fr)
     return out
+
+
+def isolated_call(modname, funcname, kwargs, timeout=3600):
+    """run checks.<modname>.<funcname>(**kwargs) in a child interpreter (native code under test may crash the
+    process); returns ('ok', result) | ('crash', {signal, stderr}) | ('error', text)"""
+    import subprocess
+    import tempfile
+
+    d = os.path.join(ROOT, ".cache")
+    os.makedirs(d, exist_ok=True)
+    fd, out = tempfile.mkstemp(dir=d, suffix=".json")
+    os.close(fd)
+    code = (
+        "import json,sys\n"
+        f"sys.path.insert(0, {ROOT!r})\n"
+        "import importlib\n"
+        f"m = importlib.import_module({modname!r})\n"
+        f"r = getattr(m, {funcname!r})(**json.loads({json.dumps(kwargs)!r}))\n"
+        f"json.dump(r, open({out!r}, 'w'), default=str)\n"
+    )
+    env = dict(os.environ)
+    env["PYTHONDONTWRITEBYTECODE"] = "1"
+    try:
+        p = subprocess.run([sys.executable, "-c", code], cwd=ROOT, env=env, capture_output=True, text=True, timeout=timeout)
+        rc, err = p.returncode, p.stderr
+    except subprocess.TimeoutExpired as e:
+        rc, err = 124, "timeout"
+    try:
+        if rc == 0:
+            with open(out) as fh:
+                return "ok", json.load(fh)
+        if rc < 0 or rc in (134, 135, 136, 139):
+            return "crash", {"signal": -rc if rc < 0 else rc - 128, "stderr": err[-1500:]}
+        return "error", err[-3000:]
+    finally:
+        try:
+            os.unlink(out)
+        except OSError:
+            pass
+
+
+def bounded_entry(prop, tier, seed):
+    from . import main as _main
+
+    check = _main.get_check(prop)
+    for m in check.CONTRACT_MODULES:
+        importlib.import_module("contracts." + m)
+    return check.bounded(tier, seed, None)
+
+
+def run_bounded(check, tier, seed):
+    if os.environ.get("VERIF_NO_ISOLATE"):
+        return check.bounded(tier, seed, None)
+    st, r = isolated_call("checks.common", "bounded_entry", {"prop": check.PROP, "tier": tier, "seed": seed})
+    if st == "ok":
+        return r
+    if st == "crash":
+        return {"evaluations": 1, "distinct_nontrivial": 1, "rule": "native part crashed", "samples": [],
+                "violations": [{"case_key": "native:crash", "problem": f"the real code (compiled accessors / kernels) crashed the "
+                                f"interpreter with signal {r['signal']} while the bounded native part was running", "stderr": r["stderr"]}]}
+    raise RuntimeError("bounded part failed:\n" + r)
 
 
 def sanitize(name):
@@ -158,7 +226,7 @@ def run_check(check, tier, seed):
     # ---- 4 bounded native part
     bres = None
     try:
-        bres = check.bounded(tier, seed, None)
+        bres = run_bounded(check, tier, seed)
     except Exception:
         faults.append("bounded part crashed: " + traceback.format_exc()[-1500:])
 
@@ -204,9 +272,17 @@ def run_check(check, tier, seed):
             "discharged_on_baseline": was_discharged,
             "counterexample": cex,
         }
+        owners = getattr(ob, "owners", None) or ([ob.properties[0]] if getattr(ob, "properties", None) else [prop])
+        owner = prop if prop in owners else owners[0]
+        is_aux = ob.kind.startswith("inv") or ob.kind in ("pre@call", "dec")
         if cex is not None:
             path = write_replay(prop, ob.name, payload)
             violations.append((ob.name, path, ""))
+        elif is_aux and owner != prop:
+            # an auxiliary proof obligation shared with (and owned by) another property failed and no input violating
+            # this property's own clauses was found: the proof of this property is incomplete, not refuted
+            undecided[ob.name] = (f"auxiliary obligation owned by {owner} is {ob.status}; no violation of {prop}'s clauses "
+                                  f"found by the bounded native search")
         elif ob.status == "refuted" or was_discharged:
             path = write_replay(prop, ob.name, payload)
             violations.append((ob.name, path, " no-failing-input-found"))
